@@ -187,7 +187,7 @@ class _CenterManifoldInterface(
         return _BackendCall(request=request)
 
     def to_domain(self, outputs: CenterManifoldBackendResponse, *, problem: _CenterManifoldMapProblem) -> CenterManifoldDomainPayload:
-        points = outputs.states[:, :2] if outputs.states.size else np.empty((0, 2))
+        points = self.plane_points_from_states(outputs.states, section_coord=problem.section_coord)
         return CenterManifoldDomainPayload._from_mapping(
             {
                 "points": points,
